@@ -60,6 +60,12 @@ def gen_cfg(r: random.Random, kn: dict) -> dict:
     if r.random() < kn.get("p_per_class", 0.5):
         for c in r.sample(CLASSES, r.randint(1, 3)):
             pc[c] = r.choice([0, 1, 1, 2, 3])
+    if kn.get("p_long") and r.random() < kn["p_long"]:
+        # long calls: tens of attempts, caps of the same order (counters must not saturate / roll over)
+        cfg["max_attempts"] = r.randint(12, 48)
+        cfg["max_unknown"] = r.choice([None, 1, r.randint(8, 30)])
+        pc = {c: r.choice([1, 2, r.randint(8, 30)]) for c in r.sample(CLASSES, r.randint(0, 3))}
+        cfg["long"] = True
     cfg["per_class"] = pc
     # strategies
     default = r.choice(["ctx", "legacy"]) if r.random() < kn.get("p_default", 0.8) else None
@@ -85,6 +91,10 @@ def gen_attempts(r: random.Random, cfg: dict, kn: dict, n: int) -> list[dict]:
     style = r.random()
     p_ok = kn.get("p_ok", 0.12)
     favour = r.choice(CLASSES)
+    if cfg.get("long"):
+        # mostly one retryable class (so its counter really gets large), few successes
+        style, p_ok = (0.0 if r.random() < 0.7 else style), p_ok / 4
+        favour = r.choice(list(cfg["per_class"]) + RETRYABLE)
     out = []
     for i in range(n):
         x = r.random()
@@ -108,6 +118,8 @@ def gen_attempts(r: random.Random, cfg: dict, kn: dict, n: int) -> list[dict]:
             step["timeout_type"] = True
         elif kind == "exc" and r.random() < kn.get("p_falsy_exc", 0.06):
             step["falsy"] = True
+        elif kind == "exc" and kn.get("p_frozen_exc") and r.random() < kn["p_frozen_exc"]:
+            step["frozen"] = True
         if kind == "exc" and r.random() < kn.get("p_reuse_exc", 0.1):
             step["reuse"] = True
         if r.random() < kn.get("p_ra", 0.15):
@@ -120,7 +132,9 @@ def gen_call(r: random.Random, cfg: dict, kn: dict) -> dict:
     n = max(cfg["max_attempts"], 0) + 2
     call = {"attempts": gen_attempts(r, cfg, kn, n)}
     hostile = kn.get("p_hostile", 0.12)
-    call["values"] = [_value(r, hostile) for _ in range(r.randint(1, n))]
+    call["values"] = [_value(r, hostile) for _ in range(r.randint(1, min(n, 10)))]
+    if cfg.get("long"):
+        call["values"] = [r.choice([0, 0, 1, 1000]) for _ in range(r.randint(1, 3))]
     if r.random() < kn.get("p_overshoot", 0.3):
         call["overshoot"] = [r.choice([0, 0, 1, 1000, 500_000, r.randrange(0, 2_000_000)]) for _ in range(r.randint(1, 3))]
     else:
@@ -231,6 +245,9 @@ def gen_retry(seed: int, kn: dict | None = None) -> dict:
             b["prefill"] = ages
     for i, c in enumerate(calls[1:], 1):
         c["before"] = [["adv", r.choice([0, 1000, 1_000_000, 61_000_000])]]
+    if cfg["feedback"] and kn.get("p_slow_feedback") and r.random() < kn["p_slow_feedback"]:
+        for c in calls:
+            c["fb_dur"] = [r.choice([0, 1, 1, 1000, 100_000, 500_000, 2_000_000]) for _ in range(r.randint(1, 3))]
     if r.random() < kn.get("p_attempt_timeout", 0.0):
         # never fires (operations take <= 3 s of virtual time and no real time): sync = real worker-thread path
         # of _call_with_timeout, async = asyncio.wait_for on the SimLoop
